@@ -7,6 +7,7 @@ CONSTANTS
   Tags = {}
   LoadLocks = TRUE
   SaveLocks = TRUE
+  TruncFirst = FALSE
   Reread = TRUE
   TraceFile = "sf_trace.ndjson"
 INVARIANTS
